@@ -94,6 +94,37 @@ def sim_costs(net, T, seed, extra=None):
 POISSON_RATES = [2, 4, 6, 2.5, 4.6, 0.8, 3.3]      # non-integer rates too: the generator must draw Poisson(mean), not Poisson(int(mean))
 
 
+def library_band_stream(chk, n):
+    """The library's OWN confidence band: run_multiple_trials(network, trials, periods, seed) returns (mean, standard error of the mean) of the per-trial
+    average costs. For a single stage under base-stock the analytical (newsvendor) cost must lie within mean +- 6 SEM (+ 2% for the warm-up of
+    each trial), the SEM must be positive for random demand and of the size an independent set of trials (own loop over sim.simulation with own seeds)
+    gives. Search only (statistical), like the rest of this stream."""
+    from stockpyl.supply_chain_network import single_stage_system
+    from stockpyl.newsvendor import newsvendor_poisson_cost
+    import stockpyl.sim as sim
+    rng = chk.rng
+    for _ in range(n):
+        L = rng.randint(1, 2); mu = rng.choice(POISSON_RATES); h = rng.choice([1, 2]); p = rng.choice([4, 9]); S = int(mu * L + rng.randint(0, 4))
+        trials = rng.choice([12, 20]); periods = rng.choice([150, 250]); seed = rng.choice([0, 1, 7, 12345])
+        def build(): return single_stage_system(holding_cost=h, stockout_cost=p, shipment_lead_time=L, demand_type='P', mean=mu, policy_type='BS', base_stock_level=S)
+        case = dict(stream='statistical', kind='library-band', params=dict(L=L, mu=mu, h=h, p=p, S=S, trials=trials, periods=periods, seed=seed))
+        sim.issued_backorder_warning = False
+        with warnings.catch_warnings():
+            warnings.simplefilter('ignore')
+            try: mean, sem = sim.run_multiple_trials(build(), trials, periods, rand_seed=seed, progress_bar=False)
+            except Exception as e:
+                chk.fail('run_multiple_trials|raises-%s' % exc_kind(e), str(e)[:200], case); continue
+            own = [float(sim.simulation(build(), periods, rand_seed=1000 + 17 * k, progress_bar=False, consistency_checks='N')) / periods for k in range(trials)]
+        own_sem = float(np.std(own, ddof=1) / math.sqrt(trials))
+        analytic = float(newsvendor_poisson_cost(S, h, p, mu * L))
+        chk.count('stat_library-band'); chk.case(dict(case, simulated=float(mean), sem=float(sem), own_sem=own_sem, analytical=analytic), True)
+        if not (sem > 0) or not (own_sem / 4 <= sem <= own_sem * 4):
+            chk.fail('long-run|library-confidence-band|standard-error', '%r: run_multiple_trials reports mean %.5f, standard error %.6g; %d independent trials of the same length have standard error %.6g'
+                     % (case['params'], mean, sem, trials, own_sem), case)
+        elif abs(mean - analytic) > 6 * sem + 0.02 * abs(analytic) + 0.02:
+            chk.fail('long-run|library-confidence-band|simulated-vs-analytical', '%r: run_multiple_trials mean %.5f +- %.5f (SEM) vs newsvendor cost %.5f' % (case['params'], mean, sem, analytic), case)
+
+
 def statistical(chk, T, reps):
     from stockpyl.supply_chain_network import single_stage_system, serial_system, echelon_to_local_base_stock_levels
     from stockpyl.newsvendor import newsvendor_poisson_cost, newsvendor_normal_cost
@@ -596,6 +627,7 @@ def run(chk):
     from props import c15_ssim
     c15_ssim.sS_stage_stream(chk, 50 if quick else 500); lap('sS-stage')
     statistical(chk, 6000 if quick else 40000, 3 if quick else 10); lap('statistical')
+    library_band_stream(chk, 3 if quick else 20); lap('library-band')
     if (chk.broken or chk.mismatches) and not chk.fails:
         for _ in range(10 * n):
             c = single_case(chk.rng)
